@@ -129,7 +129,18 @@ def r2(ctx, fs):
                 v = n['slots']['var'].get('name')
                 rec = [canon(x, env, subst=False) for x in walk(n['slots']['body']) if x.get('callee_name') == 'ratio::enum_type::get_all_instances']
                 ins = [x for x in walk(n['slots']['body']) if x.get('k') == 'CXXMemberCallExpr' and (x.get('callee_name') or '').endswith('::insert')]
-                inc = not cond and len(rec) == 1 and rec[0][2] == v and len(ins) == 1
+                # the values of the included enum are appended: one range insert, or an unconditional loop over them that appends each one
+                app = len(ins)
+                for m in walk(n['slots']['body']):
+                    if m.get('k') == 'CXXForRangeStmt' and m is not n:
+                        rr = canon(m['slots']['range'], env)
+                        ev = m['slots']['var'].get('name')
+                        pushes = [canon(x, env, subst=False) for x in walk(m['slots']['body']) if x.get('k') == 'CXXMemberCallExpr' and (x.get('callee_name') or '').endswith('::push_back')]
+                        plain = not any(x.get('k') in ('IfStmt', 'BreakStmt', 'ContinueStmt') for x in walk(m['slots']['body']))
+                        if isinstance(rr, tuple) and rr[:2] == ('mcall', 'ratio::enum_type::get_all_instances') and plain and len(pushes) == 1 and pushes[0][-1] == ev:
+                            app += 1
+                cond = any(x.get('k') in ('IfStmt', 'BreakStmt', 'ContinueStmt') for x in walk(n['slots']['body']))
+                inc = not cond and len(rec) == 1 and rec[0][2] == v and app == 1
     ctx.instance(rid, [f.id, 'union'], {'own_values': own, 'included_enums_recursively': inc})
     if not (own and inc):
         ctx.finding(rid, f.id, 'union', 'enum_type::get_all_instances must return the declared values and, recursively, the values of every included enum', loc=f.loc)
